@@ -22,8 +22,8 @@ struct Affine {
     explicit Affine(const PtSpec &s) : sp(s), dn(19) {}
     typedef std::common_type_t<R, T> CT;
 
-    std::string js(R x, R y) const { return std::string("{\"R\":\"") + TypeName<R>::name() + "\",\"T\":\"" + TypeName<T>::name() + "\",\"x\":\"" + val_s(x) + "\",\"y\":\"" + val_s(y) + "\"}"; }
-    void fail(R x, R y, const std::string &m) { if (!failed) report_fail(sp.id, js(x, y), m); failed = true; st.fails++; }
+    template <class Y> std::string js(R x, Y y) const { return std::string("{\"R\":\"") + TypeName<R>::name() + "\",\"T\":\"" + TypeName<T>::name() + "\",\"x\":\"" + val_s(x) + "\",\"y\":\"" + val_s(y) + "\"}"; }
+    template <class Y> void fail(R x, Y y, const std::string &m) { if (!failed) report_fail(sp.id, js(x, y), m); failed = true; st.fails++; }
 
     template <class X> static i128 budget() { return std::is_floating_point<X>::value ? (i128(1) << 50) : (i128(1) << (sizeof(X) * 8 - (std::is_signed<X>::value ? 1 : 0) - 2)); }
     // does |v| (signed) / v (unsigned) fit X with two bits to spare?
@@ -58,7 +58,8 @@ struct Affine {
         if (std::is_floating_point<T>::value || std::is_floating_point<R>::value) {
             long double e = (long double)num / (long double)den;
             long double scale = std::fabs((long double)xi * sp.fineU) + sp.fineD;  // size of the larger intermediate
-            long double tol = 4 * (long double)std::numeric_limits<CT>::epsilon() * (scale * (long double)sp.mV.d / (long double)sp.mV.n / ((long double)sp.fineV) + std::fabs(e)) + 1e-30L;
+            long double epsr = (long double)std::numeric_limits<CT>::epsilon(); if (std::is_floating_point<T>::value && (long double)std::numeric_limits<T>::epsilon() > epsr) epsr = (long double)std::numeric_limits<T>::epsilon();   // the result is rounded to T
+            long double tol = 4 * epsr * (scale * (long double)sp.mV.d / (long double)sp.mV.n / ((long double)sp.fineV) + std::fabs(e)) + 1e-30L;
             if (std::is_integral<T>::value) { if (num % den != 0) return; if (!in_range<T>(num / den)) return; tol += 0; }
             ++n_conv_asserted;
             long double r = (long double)conv(x), r2 = (long double)conv2(x);
@@ -78,12 +79,13 @@ struct Affine {
         if (x != 0) dn.add(uint64_t((long long)x));
     }
 
-    // comparisons, p - q, p +- d  (same rep R on both sides)
+    // comparisons, p - q, p +- d : the second operand carries the TARGET rep T, so mixed-rep operations are exercised whenever R != T
     template <bool B = CMP>
-    typename std::enable_if<B>::type check_pair(R x, R y) {
+    typename std::enable_if<B>::type check_pair(R x, T y) {
         g_crumb.inst = sp.id; snprintf(g_crumb.what, sizeof g_crumb.what, "pair x=%s y=%s", val_s(x).c_str(), val_s(y).c_str());
         i128 xi = i128((long long)x), yi = i128((long long)y);
-        if (!(fits2<R>(xi * sp.fineU) && fits2<R>(yi * sp.fineV) && fits2<R>(i128(sp.fineD)) && fits2<R>(xi * sp.fineU + sp.fineD) && fits2<R>(yi * sp.fineV + sp.fineD))) return;
+        // everything is computed in the common rep CT: the model intermediates must fit it with two bits to spare
+        if (!(fits2<CT>(xi * sp.fineU) && fits2<CT>(yi * sp.fineV) && fits2<CT>(i128(sp.fineD)) && fits2<CT>(xi * sp.fineU + sp.fineD) && fits2<CT>(yi * sp.fineV + sp.fineD) && fits2<CT>(xi * sp.fineU - yi * sp.fineV))) return;
         // exact positions over a common denominator
         i128 Dn = i128(sp.mU.d) * sp.oU.d * sp.mV.d * sp.oV.d;
         i128 P = (xi * sp.mU.n * sp.oU.d + i128(sp.oU.n) * sp.mU.d) * sp.mV.d * sp.oV.d;
@@ -92,7 +94,7 @@ struct Affine {
         auto p = au::make_quantity_point<U>(x); auto q = au::make_quantity_point<V>(y);
         ++n_cmp; st.evals += 6;
         bool band = false;
-        if (std::is_floating_point<R>::value) { long double d = std::fabs((long double)(P - Q) / (long double)Dn); long double s = (std::fabs((long double)P) + std::fabs((long double)Q)) / (long double)Dn; band = d <= 16 * s * (long double)std::numeric_limits<R>::epsilon(); }
+        if (std::is_floating_point<CT>::value) { long double d = std::fabs((long double)(P - Q) / (long double)Dn); long double s = (std::fabs((long double)P) + std::fabs((long double)Q)) / (long double)Dn + (long double)sp.fineD / (long double)sp.fineU * (long double)sp.mU.n / (long double)sp.mU.d; band = d <= 16 * s * (long double)std::numeric_limits<CT>::epsilon(); }
         if (!band) {
             if ((p == q) != (P == Q) || (p != q) != (P != Q) || (p < q) != (P < Q) || (p <= q) != (P <= Q) || (p > q) != (P > Q) || (p >= q) != (P >= Q))
                 fail(x, y, "comparison disagrees with absolute positions");
@@ -105,7 +107,7 @@ struct Affine {
         constexpr long double rl = au::get_value<long double>(ratio);
         long double lhs = (long double)d.in(DU{}) * rl * (long double)sp.mU.n / (long double)sp.mU.d;
         long double rhs = (long double)(P - Q) / (long double)Dn;
-        long double tol = (std::is_floating_point<R>::value ? 32 * (long double)std::numeric_limits<R>::epsilon() * (std::fabs((long double)P) + std::fabs((long double)Q)) / (long double)Dn : 0) + 1e-9L * std::fabs(rhs) + 1e-12L;
+        long double tol = (std::is_floating_point<CT>::value ? 32 * (long double)std::numeric_limits<CT>::epsilon() * ((std::fabs((long double)P) + std::fabs((long double)Q)) / (long double)Dn + (long double)sp.fineD / (long double)sp.fineU * (long double)sp.mU.n / (long double)sp.mU.d) : 0) + 1e-9L * std::fabs(rhs) + 1e-12L;
         if (std::fabs(lhs - rhs) > tol) fail(x, y, "(p - q) is not the exact displacement: " + val_s(lhs) + " K vs " + val_s(rhs) + " K");
         // p + d and p - d with d = displacement quantity in V's scale: shifts position by exactly y*mV
         auto dq = au::make_quantity<V>(y);
@@ -114,13 +116,14 @@ struct Affine {
         // position of s1 in kelvins = value*mag(SU) + origin(SU); compare via conversion back to a double-rep point in U: exact for integral reps within budget
         long double back1 = (long double)s1.template coerce_in<long double>(U{}), back2 = (long double)s2.template coerce_in<long double>(U{});
         long double shift = (long double)yi * (long double)sp.mV.n / (long double)sp.mV.d * (long double)sp.mU.d / (long double)sp.mU.n;
-        long double t2 = 1e-9L * (std::fabs((long double)xi) + std::fabs(shift)) + 1e-9L + (std::is_floating_point<R>::value ? 64 * (long double)std::numeric_limits<R>::epsilon() * (std::fabs((long double)xi) + std::fabs(shift) + (long double)sp.fineD / (long double)sp.fineU) : 0);
+        long double t2 = 1e-9L * (std::fabs((long double)xi) + std::fabs(shift)) + 1e-9L + (std::is_floating_point<CT>::value ? 64 * (long double)std::numeric_limits<CT>::epsilon() * (std::fabs((long double)xi) + std::fabs(shift) + (long double)sp.fineD / (long double)sp.fineU) : 0);
         if (std::fabs(back1 - ((long double)xi + shift)) > t2 || std::fabs(back2 - ((long double)xi - shift)) > t2) fail(x, y, "p +/- d does not shift by exactly the displacement");
         (void)sizeof(SU);
         if (!(x == 0 && y == 0)) dn.add(mix(uint64_t((long long)x)) ^ mix(uint64_t((long long)y) + 3));
     }
     template <bool B = CMP>
-    typename std::enable_if<!B>::type check_pair(R, R) {}
+    typename std::enable_if<!B>::type check_pair(R, T) {}
+    T clampT(long long v) const { if (!std::is_floating_point<T>::value) { if (i128(v) < i128(std::numeric_limits<T>::lowest())) return std::numeric_limits<T>::lowest(); if (v > 0 && u128(v) > u128(std::numeric_limits<T>::max())) return std::numeric_limits<T>::max(); } return T(v); }
 
     // value of the other unit's origin expressed in this unit (window centres)
     long long origin_in_U() const { long double v = ((long double)sp.oV.n / sp.oV.d - (long double)sp.oU.n / sp.oU.d) / ((long double)sp.mU.n / sp.mU.d); if (v > 4e18L) v = 4e18L; if (v < -4e18L) v = -4e18L; return (long long)v; }
@@ -140,13 +143,13 @@ struct Affine {
             if (std::fabs(pos) < 4e18L) y = clampR((long long)pos + (long long)(d[2] % 5) - 2);
         }
     }
-    static bool prop(void *self, const uint64_t *d, size_t) { Affine *me = static_cast<Affine *>(self); R x, y; me->gen(d, x, y); uint64_t f = me->st.fails; me->check_conv(x); me->check_pair(x, y); return me->st.fails == f; }
+    static bool prop(void *self, const uint64_t *d, size_t) { Affine *me = static_cast<Affine *>(self); R x, y; me->gen(d, x, y); uint64_t f = me->st.fails; me->check_conv(x); me->check_pair(x, me->clampT((long long)y)); return me->st.fails == f; }
     void run() {
         if (!g_args.want(sp.id)) return;
-        if (g_args.one) { R x = parse_val<R>(g_args.one_vals.at(0)), y = parse_val<R>(g_args.one_vals.at(1)); check_conv(x); check_pair(x, y); printf("AUVONE %s\n", failed ? "fail" : "ok"); return; }
+        if (g_args.one) { R x = parse_val<R>(g_args.one_vals.at(0)); T y = parse_val<T>(g_args.one_vals.at(1)); check_conv(x); check_pair(x, y); printf("AUVONE %s\n", failed ? "fail" : "ok"); return; }
         // exhaustive windows of +-2^15 around 0 and around the other unit's origin
         long long c = origin_in_U();
-        for (long long k = -32768; k <= 32768 && !failed; ++k) { check_conv(clampR(k)); check_conv(clampR(c + k)); if ((k & 63) == 0) check_pair(clampR(k), clampR(k / 3)); }
+        for (long long k = -32768; k <= 32768 && !failed; ++k) { check_conv(clampR(k)); check_conv(clampR(c + k)); if ((k & 63) == 0) check_pair(clampR(k), clampT(k / 3)); }
         if (!failed) { uint64_t out[3]; rc_run(sp.id, 3, &Affine::prop, this, out); }
         st.inst = sp.id; st.exhaustive = false; st.nontrivial = dn.n;
         char h[200]; snprintf(h, sizeof h, "\"conversions\":%" PRIu64 ",\"conversions_asserted\":%" PRIu64 ",\"comparisons\":%" PRIu64 ",\"differences\":%" PRIu64 ",\"canary\":%s", n_conv, n_conv_asserted, n_cmp, n_diff, sp.canary ? "true" : "false");
